@@ -98,7 +98,13 @@ def key_rule(ctx, d1, f, cname):
         tag = 'nophase' if nophase else 'phase'
         tc_ok = 'self._thermal_condition._T' in lit_txt and 'self._thermal_condition._P' in lit_txt
         star = [a for a in c.node.args if isinstance(a, ast.Starred)]
-        tc_arg_ok = len(star) == 1 and src(star[0].value) in ('self._thermal_condition', 'self.thermal_condition')
+        def _resolved(x):
+            try:
+                return p.lin.form(x).pretty()
+            except Exception:
+                return src(x)
+        # (a local alias of the thermal condition is as good as the attribute itself)
+        tc_arg_ok = len(star) == 1 and _resolved(star[0].value) in ('self._thermal_condition', 'self.thermal_condition')
         if tc_ok and tc_arg_ok:
             d1.ok(cons + '[%s]' % tag, 'T and P of the key are those of the thermal condition passed to the model', f, c.stmt)
         else:
